@@ -47,6 +47,8 @@ def check_record(text, r):
     """python mirror of ZnFront!OutcomeOK + ZnGrammar!WellFormed for one outcome record -> (kind, what) or None"""
     if r["obs"] in ("timeout", "panic", "exit", "harness-error"):
         return (r["obs"], "front end %s: %s" % (r["obs"], (r.get("detail") or "")[:200]))
+    if r.get("mutated") is not None:
+        return ("source-changed", "compiling CHANGED the program text it was given: now %r" % r["mutated"][:120])
     if r["obs"] == "tree":
         if r.get("lexerr"):
             return ("accepted-untokenisable", "accepted with a tree although the text does not tokenise (lexer error %s at %s): the tree stands for a part of the text only"
@@ -115,6 +117,13 @@ def run(ctx):
                 for post in ("", "\n令Y = 2\n"):
                     tx = pre + cm.replace("\n", "\n    " if pre.startswith("如果") else "\n") + bad + post
                     cases.append(dict(id=len(cases), text=tx)); meta.append(("after-comment", tx))
+    # a text literal with a (successful) back-tick escape, then something that does not compile on the same / the next line
+    for esc in ("`LF`", "`CR`", "`CRLF`", "`SP`", "`TAB`", "`BK`", "`U+41`", "`U+1F600`", "`“`", "`』`", "`XX`", "``"):
+        for lq, rq in (("“", "”"), ("「", "」"), ("‘", "’"), ("『", "』"), ("《", "》")):
+            for bad in (" ~", "、、", "\n   令C = 2", "“", " 如果", "）"):
+                for pre in ("令A = ", "（显示："):
+                    tx = pre + lq + "一" + esc + "二" + esc + rq + bad
+                    cases.append(dict(id=len(cases), text=tx)); meta.append(("escape-then-error", tx))
     seen = set()
     for v in muts:
         k = (v["id"], tuple(v["out"]))
